@@ -3,3 +3,11 @@ import Rva.Model.Basic
 import Rva.Model.Ops
 import Rva.Model.Imm
 import Rva.Model.Lexer
+import Rva.Model.Node
+import Rva.Model.Parser
+import Rva.Gen.Tables
+import Rva.Model.Cfg
+import Rva.Model.Available
+import Rva.Model.Liveness
+import Rva.Model.Lints
+import Rva.Model.Pipeline
